@@ -1,12 +1,12 @@
 package absint
 
 import (
-	"os"
 	"fmt"
 	"go/token"
 	"go/types"
 	"math"
 	"math/big"
+	"os"
 	"strings"
 
 	"golang.org/x/tools/go/ssa"
@@ -1375,7 +1375,6 @@ func (it *Interp) ConstBytes(bs []int64) Value {
 	return SliceV{Arr: o.Root, Lo: 0, Len: TInt(int64(len(bs))), Cap: len(bs)}
 }
 
-
 // PtrSel is a pointer selected among alternatives: Alts[i] is chosen when Conds[i] holds and no earlier one does
 // (the last alternative is the default; its condition is not used). Top is set instead of Conds when the selecting
 // value is unknown (a secret in opaque mode).
@@ -1495,7 +1494,6 @@ func (fr *Frame) callSplitGen(x *ssa.Call, nalt int, sel PtrSel, run func(i int)
 	}
 	return ret
 }
-
 
 // stateIn is the state of cell c at the end of an arm that made the given writes (the arm has been rolled back, so
 // an unwritten cell still shows its state in the arm). A limb array that the arm left as separate limbs is read as
